@@ -12,7 +12,7 @@ import warnings
 
 role = json.loads(sys.argv[1])
 root, outfile = sys.argv[2], sys.argv[3]
-sys.path.insert(0, os.path.dirname(os.path.abspath(outfile)))
+sys.path.insert(0, os.path.join(os.path.dirname(os.path.abspath(outfile)), role.get("version", "v1")))
 warnings.simplefilter("ignore")
 
 import joblib  # noqa: E402
@@ -21,7 +21,8 @@ from joblib import Memory  # noqa: E402
 import c11funcs  # noqa: E402
 
 mem = Memory(root, verbose=0, compress=role.get("compress", False))
-cached = mem.cache(c11funcs.f)
+validation = {"expired": (lambda metadata: False), "valid": (lambda metadata: True), "expires_after": joblib.expires_after(seconds=0)}.get(role.get("validation"))
+cached = mem.cache(c11funcs.f, cache_validation_callback=validation)
 results = []
 lock = threading.Lock()
 
